@@ -148,6 +148,14 @@ def _check_buffered(ctx, rep, base):
         with open(lp, "wb") as fh:
             fh.write(content)
         for _ in range(ctx.budget(20, 200)):
+            try:
+                probe = be.open_seekable("data/o")
+                probe.close()
+            except Exception as e:      # noqa: BLE001
+                rep.evaluations += 1
+                rep.violate("C20:buffered-reader-differs-from-file", f"size {size}: S3 open_seekable raises {type(e).__name__}: {str(e)[:80]}; the local file opens",
+                            {"kind": "buffered", "size": size})
+                break
             with be.open_seekable("data/o") as sf, open(lp, "rb") as lf:
                 for _step in range(rng.randint(1, 8)):
                     k = rng.random()
